@@ -17,7 +17,7 @@ from mc import engine
 PROPERTY = 'C12'
 LEVEL = 'model_checking'
 
-ACTIONS = ['R1', 'R2', 'R3', 'R4', 'R5', 'R6', 'F1', 'F2', 'F3', 'S1']
+ACTIONS = ['R1', 'R2', 'R3', 'R4', 'R5', 'R6', 'R7', 'F1', 'F2', 'F3', 'S1']
 _D_ORIG = {'OBSERVER': 'me', 'MYKEY': 42, 'DIRECTIO': 0}
 _STATE = {'D': dict(_D_ORIG)}          # the caller's dictionary, kept and passed again by later R2 actions
 
@@ -102,6 +102,39 @@ def act(name, wd):
         info['pktidx0'] = h.get('PKTIDX')
         info['pktstart'] = h.get('PKTSTART')
         return _h(dg), info
+    if name == 'R7':
+        # "what a recording writes depends only on its backend, antenna state and arguments": the SECOND recording of a
+        # backend must equal the recording of a FRESH, identically configured backend whose antenna was brought to the
+        # identical state (same seed, same sequence of requests as the first recording made).
+        from mc import vharness
+        digs = []
+        for period in (2, -1, 1):
+            cfg = dict(M=2, P=4, start_chan=0, num_chans=2, r=3, num_subblocks=3, bpf=2, npol=1, source='ant', bits=8,
+                       sample_rate=1024.0, t_start=0)
+
+            def mk():
+                be, src, dig, fb, rq = vharness.make_backend(cfg, seed=17)
+                for row in dig + rq:
+                    for q in row:
+                        for part in ([q] if not hasattr(q, 'quantizer_r') else [q, q.quantizer_r, q.quantizer_i]):
+                            part.stats_calc_period = period
+                            part.stats_calc_num_samples = 6
+                return be, src
+            be, src = mk()
+            be.record(output_file_stem=stem, num_blocks=1, length_mode='num_blocks', load_template=False, verbose=False)
+            _files_digest(stem)
+            reqs = [n for n, _, _ in src.log]
+            be.record(output_file_stem=stem, num_blocks=2, length_mode='num_blocks', load_template=False, verbose=False)
+            second, _ = _files_digest(stem)
+            be2, src2 = mk()
+            src2.reset_start()
+            for n in reqs:
+                src2.get_samples(n)
+            be2.record(output_file_stem=stem, num_blocks=2, length_mode='num_blocks', load_template=False, verbose=False)
+            fresh, _ = _files_digest(stem)
+            digs.append((period, second == fresh))
+        info['second_equals_fresh_backend'] = digs
+        return _h(digs, second), info
     if name == 'F1':
         fr = stg.Frame(fchans=16, tchans=8, df=2.0, dt=1.0, fch1=1e9, seed=3, t_start=10.0)
         n1 = fr.add_noise(5.0)
@@ -224,16 +257,19 @@ def case_baseline(c):
     code = ("import sys, json; from mc import engine; engine._silence(); from mc.checks import c12; "
             "print('RESULT ' + json.dumps(c12.run_history([%r], %r)))" % (c['action'], wd))
     outs = []
-    for rep in range(2):
+    for rep, hs in enumerate(('0', '1', '4242')):
+        # the interpreter's string-hash randomisation is not a seed the user controls: results must not depend on it
+        env = dict(os.environ, PYTHONHASHSEED=hs)
         r = subprocess.run([sys.executable, '-W', 'ignore', '-c', code], capture_output=True, text=True, env=env, cwd=engine.HERE)
         line = [l for l in r.stdout.splitlines() if l.startswith('RESULT ')]
         if r.returncode != 0 or not line:
             raise engine.HarnessError('baseline subprocess failed: %s\n%s' % (r.stdout[-2000:], r.stderr[-2000:]))
         outs.append(json.loads(line[0][7:])[0])
     viol = []
-    if outs[0]['digest'] != outs[1]['digest']:
-        viol.append({'site': 'action:' + c['action'], 'failure': 'nondeterministic_across_processes',
-                     'detail': 'two fresh interpreters running %s with the same seeds produced different results' % c['action']})
+    if len(set(o['digest'] for o in outs)) != 1:
+        viol.append({'site': 'action:' + c['action'], 'failure': 'nondeterministic_across_processes', 'no_reexec': True,
+                     'detail': 'fresh interpreters (PYTHONHASHSEED 0 / 1 / 4242) running %s with the same seeds produced different '
+                               'results: %s' % (c['action'], [o['digest'][:8] for o in outs])})
     return {'viol': viol, 'baseline': {c['action']: outs[0]}, 'nontrivial': [c['action']], 'outcomes': [outs[0]['digest']]}
 
 
@@ -251,6 +287,10 @@ def case_history(c):
                      'detail': '%s after %s differs from %s alone in a fresh interpreter (info %s vs %s); process state changed '
                                'by earlier actions: %s; caller dict changed: %s'
                                % (a, hist[:-1], a, last['info'], base[a]['info'], leak[:6], [s['caller_dict_changed'] for s in steps])})
+    if a == 'R7' and not all(ok for _, ok in last['info'].get('second_equals_fresh_backend', [])):
+        viol.append({'site': 'action:R7', 'failure': 'second_recording_differs_from_fresh_backend',
+                     'detail': 'the second recording of a backend differs from that of a fresh identically configured backend whose antenna '
+                               'is in the identical state; (stats_calc_period, equal): %s' % last['info'].get('second_equals_fresh_backend')})
     if a == 'R6' and (last['info'].get('pktidx0') != 0 or last['info'].get('pktstart') != 0):
         viol.append({'site': 'action:R6', 'failure': 'second_recording_header',
                      'detail': 'second recording from the same backend with the default header starts at PKTIDX=%r PKTSTART=%r'
